@@ -109,7 +109,7 @@ theorem evalExpr_agree {V} (S : Sem V) (ρ1 ρ2 : Store V) : ∀ (e : Expr),
     Agree (usedVars e) ρ1 ρ2 → evalExpr S ρ1 e = evalExpr S ρ2 e
   | .var x, h => by
     unfold evalExpr
-    exact h x (by simp [usedVars])
+    rw [h x (by simp [usedVars])]
   | .lit l, h => by unfold evalExpr; rfl
   | .call dom op sig args attrs, h => by
     unfold evalExpr
